@@ -51,6 +51,10 @@ def _impl(tier, seed, search):
         if cname in ('SE2', 'SE3'):
             A = M.copy(); A[n_, int(g.integers(n_))] = 10.0 ** g.uniform(-5.9, 0); out.append(('last-row', A))
             A = M.copy(); A[n_, n_] = 1 + 10.0 ** g.uniform(-5.9, 0); out.append(('last-row-corner', A))
+            # several corrupted entries, including ones that cancel in a sum or carry opposite signs
+            e_ = 10.0 ** g.uniform(-5.9, 0); A = M.copy(); A[n_, 0] = e_; A[n_, 1] = -e_; out.append(('last-row-pair', A))
+            A = M.copy(); A[n_, :n_] = (np.array([2.0, -1.0, -1.0])[:n_] if n_ == 3 else np.array([1.0, -1.0])) * 10.0 ** g.uniform(-5.9, 0); out.append(('last-row-all', A))
+            A = M.copy(); A[n_, n_] = -1.0; out.append(('last-row-corner-negative', A))
         return out
     CLS = dict(SO2=SO2, SE2=SE2, SO3=SO3, SE3=SE3)
     def holds_only_members(X, cname):
@@ -71,6 +75,9 @@ def _impl(tier, seed, search):
                     'list[bad,good]': lambda: cls([Bad, G2]),
                     'list[good,bad,good]': lambda: cls([G2, Bad, G1]),
                     'tuple(good,bad)': lambda: cls((G2, Bad)),
+                    # one ndarray holding a stack of matrices (rejected as a whole today; if ever accepted, every slice must be a member)
+                    'stack[good,bad]': lambda: cls(np.stack([G2, Bad])),
+                    'stack[bad]': lambda: cls(np.stack([Bad])),
                 }
                 for fname, ctor in forms.items():
                     inp = dict(cls=cname, defect=kind, form=fname, value=Bad)
@@ -83,6 +90,12 @@ def _impl(tier, seed, search):
                     if not ok:
                         L.fail(f'ctor-accepts:{cname}:{kind}:{"bare" if fname == "bare" else "list"}',
                                f'{cname}({fname}) with a {kind} matrix returned an object holding a non-member ({why})', inp, observed=[None if a is None else np.asarray(a).tolist() for a in X.data])
+                # … and the predicates with check on say no to each of them
+                for pn_, pf_ in ((('isrot2', b.isrot2), ) if cname == 'SO2' else (('ishom2', b.ishom2), ) if cname == 'SE2' else (('isrot', b.isrot), ) if cname == 'SO3' else (('ishom', b.ishom), )) + (('isvalid', cls.isvalid), ):
+                    L.count('predicate-rejects', key=(cname, kind, pn_))
+                    try: acc_ = bool(pf_(Bad, True)) if pn_ != 'isvalid' else bool(pf_(Bad))
+                    except Exception: continue
+                    if acc_: L.fail(f'predicate-accepts:{pn_}:{cname}:{kind}', f'{pn_}(check on) accepts a {kind} matrix for {cname}', dict(cls=cname, defect=kind, predicate=pn_, value=Bad))
             # the same defects as single-precision arrays (a dtype-dependent tolerance must not let them in), bare and in a list
             for kind, Bad in defects(cname, G1):
                 B32 = Bad.astype(np.float32)
@@ -220,6 +233,11 @@ def _impl(tier, seed, search):
         uv_ = inputs.unit_axis(g); wmag = float(g.choice([0.5, 2.0, 1e-3, 1 + abs(d), 1 - min(abs(d), 0.5)]))
         Sbad = np.r_[uv_, inputs.unit_axis(g) * wmag]
         L.check('isunittwist-false(unit v)', not bool(b.isunittwist(Sbad)), dict(S=Sbad), 'isunittwist accepts a twist with unit translational part whose rotational part is neither zero nor unit', sig='isunittwist:unit-v')
+        # the sign of the rotational part is immaterial: |w| = 1 turning either way, in the plane too
+        for sg_ in (1.0, -1.0):
+            L.check('isunittwist2-true(signed)', bool(b.isunittwist2(np.r_[uv_[:2] * 3.0, sg_])), dict(S=np.r_[uv_[:2] * 3.0, sg_]), f'isunittwist2 rejects a unit planar twist with w = {sg_:+.0f}', sig='isunittwist2:sign')
+            L.check('isunittwist-true(signed)', bool(b.isunittwist(np.r_[uv_ * 2.0, sg_ * S6[3:] / np.linalg.norm(S6[3:])])), dict(w=sg_), 'isunittwist rejects a unit twist', sig='isunittwist:sign')
+            ok_, r_ = L.noraise('trexp2(unit twist, theta)', lambda: b.trexp2(np.r_[uv_[:2], sg_], 0.3), dict(S=np.r_[uv_[:2], sg_]), 'trexp2(S, theta) with a unit planar twist', sig='isunittwist2:sign')
         L.check('isunittwist-true(prismatic)', bool(b.isunittwist(np.r_[uv_, 0, 0, 0])), dict(S=np.r_[uv_, 0, 0, 0]), 'isunittwist rejects a unit prismatic twist')
         L.check('isunittwist2-false(unit v)', not bool(b.isunittwist2(np.r_[uv_[:2] / np.linalg.norm(uv_[:2]), wmag if abs(wmag - 1) > 1e-6 else 0.5])), dict(w=wmag), 'isunittwist2 accepts a planar twist with unit v and non-unit non-zero w', sig='isunittwist2:unit-v')
     return L.result()
